@@ -123,7 +123,7 @@ func TestC10(t *testing.T) {
 		t.Fatal(err)
 	}
 
-	ncases := r.N(120, 800)
+	ncases := r.N(60, 400)
 	maxops := 40
 
 	type cs struct {
@@ -134,6 +134,7 @@ func TestC10(t *testing.T) {
 	}
 
 	cases := make([]*cs, ncases)
+	t0 := time.Now()
 
 	vlib.Parallel(ncases, 16, func(i int) {
 		rng := r.Rand(1, i)
@@ -148,12 +149,15 @@ func TestC10(t *testing.T) {
 		cases[i] = &cs{c: c, b: c.NewBlock(nil, nil, 0), plans: p, outs: make([]*runOut, len(p))}
 	})
 
+	r.Logf("generated %d cases in %.1fs", ncases, time.Since(t0).Seconds())
+
 	defer runtime.GOMAXPROCS(runtime.GOMAXPROCS(0))
 
 	var wdfired sync.Once
 
 	for _, procs := range []int{16, 4, 1} {
 		runtime.GOMAXPROCS(procs)
+		r.Logf("phase GOMAXPROCS=%d starts at %.1fs", procs, time.Since(t0).Seconds())
 
 		par := map[int]int{16: 16, 4: 8, 1: 4}[procs]
 
